@@ -106,7 +106,14 @@ theorem compare_want_end_of_string_is_model (e a : CStr) : Gen.compare_want_end_
   have hs : CSem.wrap 32 true (CSem.wrap 64 false (CSem.strlen a - CSem.wrap 64 false (CSem.wrap 32 true (CSem.strlen e)))) = toI32 (toI32 (a.length : Int) - toI32 (e.length : Int)) := by
     simp only [CSem.wrap, CSem.strlen, toI32]; simp; omega
   simp only [Gen.compare_want_end_of_string, argsStr, wantEnd, hs]
-  split <;> simp_all [CSem.suffix, CSem.strcmp_beq, CSem.strcmp_beq', strcmpEq]
+  generalize toI32 (toI32 (a.length : Int) - toI32 (e.length : Int)) = start
+  by_cases hx : start < 0
+  · have h1 : ¬ (0 ≤ start) := by omega
+    have h2 : ¬ (start ≥ 0) := by omega
+    simp [hx, h1, h2]
+  · have h1 : 0 ≤ start := by omega
+    have h2 : start ≥ 0 := by omega
+    simp [hx, h1, h2, CSem.suffix, CSem.strcmp_beq, CSem.strcmp_beq', strcmpEq]
 
 -- @needs compare_want_end_of_string compare_do_not_want_end_of_string
 theorem compare_do_not_want_end_of_string_is_model (e a : CStr) : Gen.compare_do_not_want_end_of_string (argsStr e a) = doNotWantEnd e a := by
